@@ -31,8 +31,16 @@ def check_state(ctx, static, state, where, case, scale_one=True):
         ctx.tally("nonfinite-state")
         return True
     ok = True
-    if not E.close(po, asm * sc[:, None], RTOL, 1e-300):
-        bad = int(np.argmax(np.max(np.abs(po - asm * sc[:, None]), axis=1)))
+    # relative to the magnitude of what is summed: messages of both signs cancel, so the rounding error
+    # of the sum scales with sum |messages| (a posterior of 1e-17 next to messages of size 1 is "zero")
+    mag = np.maximum(np.maximum(np.abs(po), np.abs(asm * sc[:, None])), E.assemble_abs(static, state) * np.abs(sc[:, None]))
+    # ... and never below the rounding level of the state as a whole: a message that should be exactly 0 is
+    # computed as (new posterior - cavity)/scale and comes out as a residue ~1e-16 x the size of its operands
+    # (measured: -1.5e-31 next to parameters of size 1); floor = 1e-6 x the largest entry of that component
+    mag = np.maximum(mag, 1e-6 * np.max(mag, axis=0, keepdims=True))
+    err = np.abs(po - asm * sc[:, None])
+    if not np.all(err <= 1e-300 + RTOL * mag):
+        bad = int(np.argmax(np.max(err / np.maximum(mag, 1e-300), axis=1)))
         ctx.oracle_fail("sum-of-messages:" + where,
                         "node %d: posterior %r but scale*sum of messages %r" % (bad, po[bad].tolist(), (asm[bad] * sc[bad]).tolist()),
                         {"case": case, "where": where, "node": bad})
